@@ -231,6 +231,14 @@ def switched_rules(chk):
     if init_i is not None and init_v is not None and len(init_i.value.elts) == len(init_v.value.elts):
         for ei, ev_ in zip(init_i.value.elts, init_v.value.elts):
             k = ei.value if isinstance(ei, ast.Constant) else None
+            if isinstance(ev_, ast.Name):
+                # a local bound just before, at the function's top level (last = peak_values[0]): what it holds when the list is built
+                prior = [st_ for st_ in fi.node.body if isinstance(st_, ast.Assign) and len(st_.targets) == 1 and isinstance(st_.targets[0], ast.Name)
+                         and st_.targets[0].id == ev_.id and st_.lineno < init_v.lineno]
+                later = [st_ for st_ in ast.walk(fi.node) if isinstance(st_, (ast.Assign, ast.AugAssign)) and st_.lineno < init_v.lineno and
+                         st_ not in prior and any(isinstance(x, ast.Name) and x.id == ev_.id and isinstance(x.ctx, ast.Store) for x in ast.walk(st_))]
+                if len(prior) == 1 and not later:
+                    ev_ = prior[0].value
             is_elem = isinstance(ev_, ast.Subscript) and isinstance(ev_.value, ast.Name) and ev_.value.id == src and isinstance(ev_.slice, ast.Constant) \
                 and ev_.slice.value == k
             if k is None or not is_elem:
